@@ -181,8 +181,50 @@ def check_C10(tier, seed):
     return simple_check("C10", tier, seed, lambda t: gen.ptr_scenarios(gen.ALL_SHAPES, L), mon_c10, ["Soa.Props.C10", "Soa.Lemmas.SkelPtrTie", "Soa.Lemmas.SkelRead.C10"],
                         model=MODEL["C10"], widen_fn=lambda: gen.ptr_scenarios(gen.ALL_SHAPES, 6))
 
+C15_PROBE = """#![allow(dead_code)]
+use soa_derive::StructOfArray;
+#[derive(StructOfArray, Clone, Debug, PartialEq)]
+#[soa_derive(Debug, Clone, PartialEq)]
+pub struct In { pub k: u8 }
+#[derive(StructOfArray, Clone, Debug, PartialEq)]
+#[soa_derive(Debug, Clone, PartialEq)]
+pub struct P { pub a: u32, #[nested_soa] pub n: In, pub s: String }
+fn name_of<X>(_: &X) -> &'static str { std::any::type_name::<X>() }
+fn main() {
+    let mut v = PVec::new();
+    v.push(P { a: 1, n: In { k: 2 }, s: "x".into() }); v.push(P { a: 3, n: In { k: 4 }, s: "y".into() });
+    // conversions called through a BORROWED reference value (`&PRef`, `&PRefMut`): still the owned struct
+    let refs: Vec<PRef> = v.iter().collect();
+    for r in &refs { let o = r.to_owned(); if name_of(&o).contains("Ref") { println!("FAIL conv to_owned through &PRef gives {}", name_of(&o)); } }
+    let o: P = refs.iter().map(|r| r.to_owned()).next().unwrap();
+    if o != (P { a: 1, n: In { k: 2 }, s: "x".into() }) { println!("FAIL conv value"); }
+    let o2: P = P::from(&refs[1]); let o3: P = P::from(refs[1]);
+    if o2 != o3 || o2.a != 3 { println!("FAIL conv From"); }
+    { let mut m = v.index_mut(0); let mo = (&m).to_owned(); if name_of(&mo).contains("Ref") { println!("FAIL conv to_owned through &PRefMut gives {}", name_of(&mo)); }
+      let fm: P = P::from(&m); *m.a += 1; if fm.a != 1 { println!("FAIL conv From<&RefMut>"); } }
+    let e = P { a: 9, n: In { k: 9 }, s: "z".into() };
+    if e.as_ref().to_owned() != e { println!("FAIL conv as_ref"); }
+    println!("DONE conv");
+}
+"""
+
 def check_C15(tier, seed):
     L = 4 if tier == "quick" else 6
+    # the conversions as a user writes them, also through borrowed reference values (method resolution is part of the surface)
+    from . import probes, probecheck
+    ok, out, err = probes.build_and_run("c15_conversions", C15_PROBE)
+    pf = []
+    if not ok or "DONE" not in out:
+        first = next((l for l in err.splitlines() if l.startswith("error")), err[:200])
+        pf.append(probecheck.ProbeFailure("C15:conversions:compile", f"the conversions of element references (to_owned / From, also through borrowed reference values) do not compile / run: {first}", C15_PROBE, "runs", "rejected"))
+    for l in out.splitlines():
+        if l.startswith("FAIL"): pf.append(probecheck.ProbeFailure("C15:conversions:" + l.split()[2], l[:300], C15_PROBE, "no FAIL line", l[:300]))
+    rc_probe = 0
+    for f in pf[:3]:
+        print(f"VIOLATION property=C15 replay={probecheck.probe_replay('C15', f)}"); log(f"  {f.key}: {f.what[:300]}"); rc_probe = 1
+    return max(rc_probe, _check_C15_harness(tier, seed, L))
+
+def _check_C15_harness(tier, seed, L):
     return simple_check("C15", tier, seed, lambda t: gen.refs_scenarios(gen.ALL_SHAPES, L), mon_c15, ["Soa.Props.C15", "Soa.Lemmas.SkelRefsTie", "Soa.Lemmas.SkelRead.C15", "Soa.Lemmas.Delegations.C15"],
                         model=MODEL["C15"], widen_fn=lambda: gen.refs_scenarios(gen.ALL_SHAPES, 6))
 
